@@ -611,6 +611,59 @@ fn rendered_case(ctx: &mut Ctx, rng: &mut Rng, all_faults: bool, n_faults: usize
     }
 }
 
+/// "Ladder" documents: a prefix bound on an outer element, re-bound on an inner element that uses it
+/// (own name, end tag, attribute), then used again by the inner element's following sibling, whose
+/// parent may carry no declarations at all — a resolution cached by the name builder must not outlive
+/// the scope it was made in (seeds C02g, C08g).  Text and denoted document are written side by side.
+fn ladder_case(ctx: &mut Ctx, rng: &mut Rng) {
+    let uris = ["urn:a", "urn:b", "urn:c"];
+    let u1 = *rng.pick(&uris);
+    let u2 = *rng.pick(&uris.iter().copied().filter(|u| *u != u1).collect::<Vec<_>>());
+    let p = *rng.pick(&["p", "q"]);
+    let el = |ns: &str, local: &str, decls: Vec<(String, String)>, attrs: Vec<(String, String, String)>, kids: Vec<ANode>| {
+        ANode::Elem(AElem { ns: ns.to_string(), local: local.to_string(), decls, attrs, kids })
+    };
+    // the inner element: re-binds p, and the LAST prefixed name resolved inside it uses p
+    let (inner_txt, inner_node) = match rng.below(4) {
+        0 => (format!("<{p}:a xmlns:{p}=\"{u2}\"/>"), el(u2, "a", vec![(p.into(), u2.into())], vec![], vec![])),
+        1 => (format!("<{p}:a xmlns:{p}=\"{u2}\"></{p}:a>"), el(u2, "a", vec![(p.into(), u2.into())], vec![], vec![])),
+        2 => (format!("<{p}:a xmlns:{p}=\"{u2}\">t</{p}:a>"), el(u2, "a", vec![(p.into(), u2.into())], vec![], vec![ANode::Text("t".into())])),
+        _ => (format!("<i xmlns:{p}=\"{u2}\" {p}:x=\"1\"/>"), el("", "i", vec![(p.into(), u2.into())], vec![(u2.into(), "x".into(), "1".into())], vec![])),
+    };
+    // the following sibling: no declarations, its first prefixed name uses p (outer binding)
+    let (sib_txt, sib_node) = match rng.below(3) {
+        0 => (format!("<{p}:a/>"), el(u1, "a", vec![], vec![], vec![])),
+        1 => (format!("<{p}:b {p}:x=\"2\"/>"), el(u1, "b", vec![], vec![(u1.into(), "x".into(), "2".into())], vec![])),
+        _ => (format!("<j {p}:y=\"2\"/>"), el("", "j", vec![], vec![(u1.into(), "y".into(), "2".into())], vec![])),
+    };
+    let wrapped = rng.chance(3, 4);
+    let (body_txt, body_nodes) = if wrapped {
+        (format!("<m>{}{}</m>", inner_txt, sib_txt), vec![el("", "m", vec![], vec![], vec![inner_node, sib_node])])
+    } else {
+        (format!("{}{}", inner_txt, sib_txt), vec![inner_node, sib_node])
+    };
+    let text = format!("<r xmlns:{p}=\"{u1}\">{}</r>", body_txt);
+    let top = vec![el("", "r", vec![(p.into(), u1.into())], vec![], body_nodes)];
+    let r = Rendered {
+        text,
+        fragment: false,
+        top,
+        spans: vec![],
+        tag_points: vec![],
+        close_tags: vec![],
+        close_alts: vec![],
+        text_points: vec![],
+        attr_points: vec![],
+        decl_points: vec![],
+        top_points: vec![],
+        has_decl: false,
+        planted: None,
+        feats: Default::default(),
+    };
+    ctx.sink.stat("input.ladder-document");
+    case(ctx, &r.text, &Expect { rendered: Some(&r), fault: None });
+}
+
 pub fn run(seed: u64, count: usize, tier: &str, sink: &mut Sink) {
     let mut rng = Rng::new(seed ^ 0xB01D);
     let mut ctx = Ctx { sink, fails: BTreeMap::new() };
@@ -650,7 +703,10 @@ pub fn run(seed: u64, count: usize, tier: &str, sink: &mut Sink) {
         }
     }
     let search = tier == "search";
-    for _ in 0..count {
+    for i in 0..count {
+        if i % 20 == 7 {
+            ladder_case(&mut ctx, &mut rng);
+        }
         match rng.below(10) {
             0..=5 => rendered_case(&mut ctx, &mut rng, tier == "thorough", if search { 12 } else { 5 }),
             6 | 7 => {
